@@ -1118,8 +1118,49 @@ def result_op(i):
   return dict(op='result', acc=i)
 
 
+ALIAS_METRICS = {'sampler': 'heap_sampler', 'valueacc': 'heap_valueacc', 'fss': 'heap_fss', 'meanvar': 'heap_meanvar'}
+
+
+def containers(metric, acc):
+  """the mutable containers an accumulator exposes through PUBLIC properties."""
+  if metric == 'sampler':
+    return list(acc.samples)
+  if metric == 'valueacc':
+    return list(acc.data)
+  if metric == 'fss':
+    return [acc.reservoir]
+  if metric == 'meanvar':
+    return [x for x in (acc.count, acc.mean, acc.var) if isinstance(x, np.ndarray) and x.ndim >= 1]
+  raise AssertionError(metric)
+
+
+def same_object(a, b):
+  if a is b:
+    return True
+  if isinstance(a, np.ndarray) and isinstance(b, np.ndarray):
+    return bool(np.shares_memory(a, b))
+  return False
+
+
+def run_alias(case):
+  """after every op: which pairs of accumulators reference a common container (`is` / shares_memory)."""
+  spec, cfg = SPECS[case['metric']], case['cfg']
+  accs, out = [], []
+  for op in case['prog']:
+    if op['op'] == 'make':
+      accs.append(spec.make(cfg))
+    elif op['op'] == 'add':
+      accs[op['acc']].add(*spec.args(cfg, op['batch']))
+    elif op['op'] == 'merge':
+      accs[op['acc']].merge(accs[op['other']])
+    cs = [containers(case['metric'], a) for a in accs]
+    out.append([[i, j] for i in range(len(accs)) for j in range(i + 1, len(accs))
+                if any(same_object(x, y) for x in cs[i] for y in cs[j])])
+  return out
+
+
 class C11:
-  LEAN_MODULES = ['MlModel.Properties.C11.Rolling']
+  LEAN_MODULES = ['MlModel.Properties.C11.Rolling', 'MlModel.Properties.C11.RollingHeap']
   TRUSTED = C01.TRUSTED
   ASSUMPTIONS = C01.ASSUMPTIONS
   RULE = ('[metrics: ' + COVERED + ', FrequencyState] three kinds of programs over <=4 accumulators built from '
@@ -1196,9 +1237,29 @@ class C11:
     return dict(metric=spec.name, cfg=cfg, kind='frame', naccs=n, prog=prog)
 
   @staticmethod
+  def alias_case(spec, cfg, rng):
+    n = rng.randint(2, 4)
+    prog = [dict(op='make') for _ in range(n)]
+    for _ in range(rng.randint(2, 7)):
+      if rng.random() < 0.5:
+        i = rng.randrange(n)
+        prog.append(dict(op='add', acc=i, batch=spec.gen_batch(rng, cfg, rng.choice([0, 1, 2, 3]))))
+      else:
+        i, j = rng.sample(range(n), 2)
+        prog.append(dict(op='merge', acc=i, other=j))
+    return dict(metric=spec.name, cfg=cfg, kind='alias', naccs=n, prog=prog)
+
+  @staticmethod
   def gen_cases(ctx):
     yield from ctx.corpus('C11_rolling')
     rng = ctx.rng
+    for _ in range(500 if ctx.quick else 10000):
+      spec = SPECS[rng.choice(sorted(ALIAS_METRICS))]
+      cfg = spec.gen_cfg(rng)
+      if spec.name == 'meanvar':
+        cfg = dict(dim=2, k=rng.randint(1, 3))
+      ctx.count('C11 rolling alias metric', spec.name)
+      yield C11.alias_case(spec, cfg, rng)
     for _ in range(900 if ctx.quick else 20000):
       spec = SPECS[pick_metric(rng)]
       cfg = spec.gen_cfg(rng)
@@ -1218,6 +1279,8 @@ class C11:
 
   @staticmethod
   def run_impl(case):
+    if case['kind'] == 'alias':
+      return dict(shares=run_alias(case))
     out = {}
     for k, sub in C11._subcases(case):
       o, _ = run_prog(sub)
@@ -1226,14 +1289,24 @@ class C11:
 
   @staticmethod
   def model_requests(case):
+    if case['kind'] == 'alias':
+      cfg = case['cfg']
+      mcfg = dict(max_size=cfg['max_size']) if case['metric'] == 'fss' else dict(k=cfg.get('k', 1))
+      prog = [dict(op, batch=dict(rows=op['batch']['rows'])) if (case['metric'] == 'meanvar' and op['op'] == 'add')
+              else op for op in case['prog']]
+      return [dict(model='aggrolling', metric=ALIAS_METRICS[case['metric']], cfg=mcfg, prog=prog)]
     return [model_prog(sub) for _, sub in C11._subcases(case)]
 
   @staticmethod
   def model_obs(case, resps):
+    if case['kind'] == 'alias':
+      return dict(shares=resps[0]['shares'])
     return {k: model_out(sub, r) for (k, sub), r in zip(C11._subcases(case), resps)}
 
   @staticmethod
   def compare(a, b):
+    if 'shares' in a or 'shares' in b:
+      return None if a == b else 'identity pattern of the container fields differs from the heap model'
     if set(a) != set(b):
       return 'different programs'
     for k in a:
@@ -1254,6 +1327,8 @@ class C11:
   @staticmethod
   def oracle(case, obs):
     spec, cfg = SPECS[case['metric']], case['cfg']
+    if case['kind'] == 'alias':
+      return None     # identity is compared with the model; the property-level check is the "frame" kind
     if case['kind'] == 'laws':
       fin = {k: C11._final(v) for k, v in obs.items()}
       bad = {k: v for k, v in fin.items() if isinstance(v, dict) and 'err' in v}
@@ -1315,6 +1390,8 @@ class C11:
   def nontrivial(case, obs):
     if case['kind'] == 'laws':
       return sum(1 for s in case['sizes'] if s) >= 2
+    if case['kind'] == 'alias':
+      return any(op['op'] == 'merge' for op in case['prog'])
     fed = set()
     for op in case['prog']:
       if op['op'] == 'add':
